@@ -135,6 +135,7 @@ pub fn val_strategy(sizes: ValSizes) -> BoxedStrategy<ValSpec> {
             2 => 4040u32..4110,
             3 => 8100u32..8200,
             2 => 8200u32..20000,
+            1 => 20000u32..40000,
         ]
         .boxed(),
         ValSizes::Huge => prop_oneof![
